@@ -67,6 +67,25 @@ pub fn check_string(sh: &Shared, c: &SCase) -> Check {
             }
         }
     }
+    // one input in 32 again in other calling contexts (a destructor during unwinding, a
+    // thread-local destructor at thread exit): same outcome, still no panic
+    if crate::slots::key_of(s) % 32 == 0 {
+        let here = (guard(|| l.parse(s).is_ok()).ok(), guard(|| l.parse_term(s).is_ok()).ok());
+        for ctx in crate::contexts::ALL {
+            sh.evals(2);
+            sh.class(&format!("context/{ctx:?}"));
+            let s2 = s.to_string();
+            let got = crate::contexts::run_in(ctx, move || {
+                let l = fmts::l(fi);
+                (guard(|| l.parse(&s2).is_ok()).ok(), guard(|| l.parse_term(&s2).is_ok()).ok())
+            });
+            match got {
+                None => fail!("context:thread-died", "input {s:?}: the thread parsing inside {ctx:?} died"),
+                Some(g) if g != here => fail!("context:outcome-differs", "input {s:?}\n(parse ok, parse_term ok) here = {here:?}, inside {ctx:?} = {g:?} (None = panic)"),
+                _ => {}
+            }
+        }
+    }
     sh.unwatch();
     Ok(())
 }
